@@ -183,4 +183,55 @@ CHECKS = {
    note='The address STRING codec is abstract here (decoded content); strings are C11. public_key= and HDKey lock-script paths by correspondence only. Three '
         'defects repaired by fix: commits (witness version into script, foreign-network Address objects, p2sh-segwit Address objects). Closed under the global context.',
    technique='Coq proof (finite shape enumeration x symbolic payload bytes by vm_compute) + exhaustive differential correspondence'),
+ 'C01': dict(
+   text='Gallina model of Transaction.signature / signature_hash / signature_segwit / raw(sign_id, hash_type, "legacy") and Input.update_scripts '
+        '(Model/Sighash.v, on the C06 transaction records and the C18 CompactSize) against Bitcoin Core SignatureHash and the BIP143 text. Theorems for every '
+        'well-formed transaction, input position, input kind (p2pkh, p2pk, bare and P2SH multisig, p2wpkh, p2wsh, both P2SH-nested forms), key list and threshold, '
+        'for ANY hash functions: script_code_ok, legacy_preimage_ok (all ALL-like hash types), bip143_preimage_ok (every hash type incl. SINGLE, NONE, ANYONECANPAY), '
+        'digest_ok, digest_ok_sha256 (instantiated with the executable SHA-256), verify_digest_is_sign_digest, preimage_commits / preimage_commits_or_collision '
+        '(equal digests imply equal committed fields or an explicit collision), legacy_preimage_commits; vm_compute refutations of the code before the two '
+        'repairs. Tie: preimage bytes (not only hashes) of API-built and re-parsed transactions, every input index, mixed kinds, all hash types, permuted index_n, '
+        'BIP143 published vectors; signatures in raw() checked by an independent verifier over the spec digest.',
+   design_ref='DESIGN.md section 6 C01, section 9',
+   note='Closed under the global context. The legacy path ignores non-ALL hash types (known finding legacy_non_all, refuted in Coq); OP_CODESEPARATOR and taproot '
+        'digests are outside the model. Two defects repaired by fix: commits (BIP143 hashOutputs SINGLE/NONE swapped; input chosen by index_n attribute).',
+   technique='Coq proof (byte-level equality of two serializers by induction, arbitrary hash functions) + differential correspondence on preimage bytes'),
+ 'C10': dict(
+   text='Gallina model of the multisig branch of Wallet.create / _new_key_multisig (cosigner ordering, BIP67 sorting, redeem script, script hash, paths) and of the '
+        'signing ceremony: Transaction.sign placement, Input.verify with its key-tagging side effect, Input.__init__ signature de-duplication and the three '
+        'hand-off channels (object, as_dict, raw). Theorems for every key list, threshold, permutation and operation sequence: bytes_order_is_bip67, '
+        'redeem_perm_invariant, redeem_is_spec, bip67_order_unique, wallets_agree, same_address_all_cosigners (any hash functions), path_agreement_45/48, '
+        'cosigner_order_agreement, m_signers_suffice (object hand-off: valid exactly when >= m distinct cosigners signed, any order, repeats allowed), '
+        'signature_count_is_distinct_cosigners; refutation witnesses for the raw and dict channels. Tie: REAL cosigner wallets (one sqlite file each) are created '
+        'from permuted keys, transactions are signed through chains of export/import, and addresses, redeem scripts, signature placement, verified/pushed are '
+        'compared with the extracted model after every step.',
+   design_ref='DESIGN.md section 6 C10, section 9',
+   note='Closed under the global context. ECDSA validity is abstracted (a signature is valid for exactly its signer: C13); the raw and dict hand-off channels lose or '
+        'misplace signatures (two known findings with Coq refutations); two defects repaired by fix: commits. Wallet database behaviour is reached through the '
+        'ceremony differential only.',
+   technique='Coq proof (permutation/sorting lemmas, induction over signing-operation lists) + ceremony differential against real cosigner wallets'),
+ 'C12': dict(
+   text='Gallina model of get_key_format, check_network_and_key, Key.__init__/wif, HDKey.__init__/from_wif/wif and the prefix searches of networks.py over the prefix '
+        'tables regenerated from networks.json. Theorems for every secret, chain code, depth, child number, fingerprint, table row (network x private/public x '
+        'witness type x multisig): wif_roundtrip, xkey_roundtrip, xkey_roundtrip_from_wif, xkey_export_is_row_text, raw_forms_roundtrip, raw_public_*_roundtrip, '
+        'network_resolution_sound/refusal, xkey_network_candidates, never_cross_classified_xkey, never_cross_classified_bip38, prefix_determines_private, '
+        'wif_version_never_starts_hd_prefix, hd_prefix_shape (table facts re-proved by vm_compute on every regeneration). Tie: exhaustive table stream (all rows, '
+        'all 256 version bytes), export/import round trips with leading-zero secrets, depths 0..255, boundary child numbers, hints on/off, mutated strings.',
+   design_ref='DESIGN.md section 6 C12, section 9',
+   note='Closed under the global context. Point (de)compression is an abstract pair of maps here (C04 proves it); SHA-256 is the executable Gallina one. One known '
+        'finding (HDKey compressed=False is not representable in BIP32 serialisation); two defects repaired by fix: commits.',
+   technique='Coq proof (codec round trips over regenerated prefix tables, finite table facts by vm_compute) + exhaustive-table differential correspondence'),
+ 'C13': dict(
+   text='Gallina model of Signature.create / __init__ / parse_bytes / as_der_encoded / verify, sign, verify and the fastecdsa DER coder (Model/Ecdsa.v, Model/Der.v) '
+        'over the executable affine secp256k1 and RFC 6979 with the Gallina HMAC-SHA256. Theorems: sign_verifies (ECDSA correctness in any commutative group with '
+        'a generator of prime order), executable_is_generic, lib_sign_verifies, lib_sign_low_s, der_strict (BIP66 for all r, s in range), der_roundtrip, '
+        'der_canonical, lib_sign_encoding, lib_sign_parse_roundtrip, nonce_is_rfc6979, explicit_nonce_is_used, lib_sign_refuses_bad_key, lib_verify_exact, '
+        'lib_pub_point_exact, lib_verify_point_exact, lib_parse_exact; refutation witnesses for the code before the repairs and for three open classes. Tie: '
+        'boundary keys/digests/nonces, r and s at every range edge, every DER length form, independent signer, single mutations of encodings, wrong keys/digests '
+        'through keys.sign / keys.verify / Signature.parse_bytes / der_encode_sig.',
+   design_ref='DESIGN.md section 6 C13, section 9',
+   note='Closed under the global context. The group law of the executable curve and primality of n are premises of sign_verifies (no EC library installed); nonce '
+        'uniqueness across messages is the pseudo-randomness of HMAC and is not claimed. Known findings: der64 ambiguity, lax DER acceptance by fastecdsa, nonce '
+        'derived from the hex TEXT of the digest, unreduced point coordinates. Two defects repaired by fix: commits.',
+   technique='Coq proof (abstract group algebra, DER codec by case analysis and lia) + extracted-model differential correspondence incl. malformed encodings'),
 }
